@@ -467,7 +467,7 @@ func C02(x *Ctx) {
 						// the code under test converts both timestamps to integral nanoseconds
 						// before subtracting: when a timestamp is not an integral number of ns the
 						// difference can be off by up to 1 ns either way (also at exact equality)
-						representable := (e.DTS*1e9)%rate == 0 && (segStart.DTS*1e9)%rate == 0
+						representable := ((e.DTS%rate)*1e9)%rate == 0 && ((segStart.DTS%rate)*1e9)%rate == 0
 						switch {
 						case lhs == rhs && representable:
 							elapsedOK = "yes"
